@@ -88,7 +88,68 @@ def gen_merge_case(rng, kind="merge", nm=None, cplx=None, **kw):
     G = draw_global(rng, nsens, nm, cplx, [sensors[0][p] for p in refs[0]])
     factors = [[gen_factor(rng) for _ in range(nm)] for _ in sensors]
     return dict(kind=kind, G=G, sensors=sensors, refs=refs, factors=factors,
-                dtype="complex" if (cplx or rng.random() < 0.2) else "real")
+                dtype="complex" if (cplx or rng.random() < 0.2) else "real", **call_forms(rng))
+
+
+# ----------------------------------------------------------------------------------------------------------------------
+# forms of the call that change no value: read-only input arrays; reference positions as Python ints, NumPy integer
+# scalars (int64 / int32 / uint8, elements of np.arange), index arrays, a 2-D index array, a tuple of lists.
+# Established on the unchanged tree: merge_mode_shapes, flatten_sns_names and MultiSetup_PoSER accept all of these
+# (not an inner TUPLE of positions: NumPy reads phi[(2, 0)] as a 2-D index -> IndexError; the API says list).
+# ----------------------------------------------------------------------------------------------------------------------
+REF_FORMS = ["int", "int64", "int32", "uint8", "arange", "ndarray", "ndarray32", "ndarray-u16", "array2d", "tuple-outer"]
+
+
+def call_forms(rng, p_ro=0.4, p_form=0.5):
+    out = {}
+    if rng.random() < p_ro:
+        out["readonly"] = True
+    if rng.random() < p_form:
+        out["ref_form"] = rng.choice(REF_FORMS[1:])
+    return out
+
+
+def ref_arg(refs, form=None):
+    """the reference positions in the requested form (same values)"""
+    form = form or "int"
+    if form == "int":
+        return [[int(p) for p in r] for r in refs]
+    if form in ("int64", "int32", "uint8"):
+        return [[np.dtype(form).type(p) for p in r] for r in refs]
+    if form == "arange":
+        ar = np.arange(1 + max(max(r) for r in refs))
+        return [[ar[p] for p in r] for r in refs]
+    if form == "ndarray":
+        return [np.array(r, dtype=np.int64) for r in refs]
+    if form == "ndarray32":
+        return [np.array(r, dtype=np.int32) for r in refs]
+    if form == "ndarray-u16":
+        return [np.array(r, dtype=np.uint16) for r in refs]
+    if form == "array2d":
+        return np.array([list(r) for r in refs], dtype=np.int64)
+    if form == "tuple-outer":
+        return tuple([int(p) for p in r] for r in refs)
+    raise ValueError(form)
+
+
+def same_refs(arg, refs):
+    try:
+        return len(arg) == len(refs) and all([int(p) for p in a] == [int(p) for p in r] for a, r in zip(arg, refs))
+    except Exception:
+        return False
+
+
+def frozen(arrs, ro):
+    """copies handed to the implementation (read-only when asked) and pristine copies to compare with afterwards"""
+    given = [np.array(a, copy=True) for a in arrs]
+    if ro:
+        for a in given:
+            a.setflags(write=False)
+    return given, [np.array(a, copy=True) for a in arrs]
+
+
+def untouched(given, kept):
+    return all(g.dtype == k.dtype and g.shape == k.shape and np.array_equal(g, k, equal_nan=False) for g, k in zip(given, kept))
 
 
 def gtg(G, ref_ids, k):
@@ -119,7 +180,7 @@ def arrays(case):
         M = G[s, :] * np.array(c, dtype=float)[None, :]
         dt = case["dtypes"][len(out)] if case.get("dtypes") else ("float64" if case["dtype"] == "real" else "complex128")
         A = M.astype(complex) if dt.startswith("complex") else M.real.copy()
-        A = np.rint(A).astype(np.int64) if dt == "int64" else A.astype(dt)
+        A = np.rint(A).astype(dt) if np.issubdtype(np.dtype(dt), np.integer) else A.astype(dt)
         if not np.array_equal(A.astype(complex), M):  # the cast must not change a value (generator contract)
             raise AssertionError("setup %d is not exactly representable as %s" % (len(out), dt))
         out.append(A)
@@ -144,7 +205,7 @@ def gen_mixed(rng, sensors, refs, nsens, nm, plan=None):
     real-first     first setup float64, a later setup complex128 (imaginary parts only on sensors the first setup lacks)
     float32        some or all setups float32 (values have short mantissas)
     int-later      first setup float64, a later setup int64 (integer G on its sensors, integer factors)"""
-    plan = plan or rng.choice(["int-first", "int-first", "real-first", "real-first", "float32", "int-later"])
+    plan = plan or rng.choice(["int-first", "int-first", "real-first", "real-first", "float32", "int-later", "all-int", "uint-first", "complex64"])
     nset = len(sensors)
     ref_ids = [sensors[0][p] for p in refs[0]]
     first = set(sensors[0])
@@ -154,13 +215,25 @@ def gen_mixed(rng, sensors, refs, nsens, nm, plan=None):
         G = gen_global(rng, nsens, nm, False)
         factors = [[gen_factor(rng) for _ in range(nm)] for _ in sensors]
         dtypes = ["float64"] * nset
-        if plan in ("int-first", "int-later"):
-            who = 0 if plan == "int-first" else rng.randint(1, nset - 1)
+        if plan in ("int-first", "int-later", "uint-first"):
+            who = rng.randint(1, nset - 1) if plan == "int-later" else 0
+            sgn = [1] if plan == "uint-first" else [-1, 1]
             for sid in sensors[who]:
                 for z in G[sid]:
+                    z[0] = float(rng.choice(sgn) * rng.randint(1, 9))
+            factors[who] = [float(rng.choice(sgn) * rng.choice(INT_FACTORS)) for _ in range(nm)]
+            dtypes[who] = rng.choice(["uint32", "uint64"]) if plan == "uint-first" else rng.choice(["int64", "int32"])
+        if plan == "all-int":  # every setup integer-valued, stored as int32 / int64
+            for row in G:
+                for z in row:
                     z[0] = float(rng.choice([-1, 1]) * rng.randint(1, 9))
-            factors[who] = [float(rng.choice([-1, 1]) * rng.choice(INT_FACTORS)) for _ in range(nm)]
-            dtypes[who] = "int64"
+            factors = [[float(rng.choice([-1, 1]) * rng.choice(INT_FACTORS)) for _ in range(nm)] for _ in sensors]
+            dtypes = [rng.choice(["int32", "int64"]) for _ in sensors]
+        if plan == "complex64":  # complex shapes, some or all setups stored in single precision
+            for row in G:
+                for z in row:
+                    z[1] = rng.randint(-24, 24) / 8.0
+            dtypes = ["complex64" if (i == 0 or rng.random() < 0.6) else "complex128" for i in range(nset)]
         if plan in ("int-first", "real-first"):
             # imaginary parts only where the first setup does not measure: the first setup stays real / integer
             cands = [i for i in range(1, nset) if any(sid not in first for sid in sensors[i])]
@@ -179,7 +252,7 @@ def gen_mixed(rng, sensors, refs, nsens, nm, plan=None):
             for i in range(nset):
                 if i == 0 or rng.random() < 0.6:
                     dtypes[i] = "float32"
-        if len(set(dtypes)) < 2 and plan != "float32":
+        if len(set(dtypes)) < 2 and plan not in ("float32", "all-int", "complex64"):
             continue
         if all(not isotropic(G, ref_ids, k) for k in range(nm)):
             return G, factors, dtypes, plan
@@ -193,7 +266,7 @@ def gen_mixed_case(rng, plan=None):
             continue
         nm = rng.randint(1, 6)
         G, factors, dtypes, plan_ = gen_mixed(rng, sensors, refs, nsens, nm, plan)
-        return dict(kind="merge", G=G, sensors=sensors, refs=refs, factors=factors, dtype="mixed", dtypes=dtypes, plan=plan_)
+        return dict(kind="merge", G=G, sensors=sensors, refs=refs, factors=factors, dtype="mixed", dtypes=dtypes, plan=plan_, **call_forms(rng))
     raise RuntimeError("no layout with roving sensors drawn")
 
 
@@ -377,6 +450,14 @@ def gen_algs(rng, sensors, refs, nsens, nalg, scale=None, mixed=None):
             sub["scale10"] = rng.choice(SCALES)
         if rng.random() < 0.3:
             sub["xi_list"] = True  # merge_results builds np.array(all_xi): plain lists are accepted there
+        if rng.random() < 0.4:
+            sub["readonly"] = True  # the setups' result arrays are read-only (e.g. loaded with mmap_mode="r")
+        fx = rng.random()
+        if fx < 0.15:
+            sub["fx_dtype"] = "float32"  # Fn k/64 and Xi k/8192 are exact in single precision
+        elif fx < 0.3:
+            sub["fx_dtype"] = rng.choice(["int64", "int32", "uint16"])  # integer-valued frequencies stored as integers
+            sub["Fn"] = [[float(int(f) + rng.randint(0, 3)) for f in base_f] for _ in range(nset)]
         algs.append(sub)
     return algs
 
@@ -390,7 +471,7 @@ def gen_e2e_case(rng, scale=None, mixed=None, **kw):
             break
     nalg = rng.randint(1, 3)
     return dict(kind="e2e", sensors=sensors, refs=refs, algs=gen_algs(rng, sensors, refs, nsens, nalg, scale, mixed),
-                names=["grp_%s" % "xyz"[a] for a in range(nalg)])
+                names=["grp_%s" % "xyz"[a] for a in range(nalg)], **call_forms(rng, p_ro=0.0))
 
 
 def gen_hist_case(rng):
@@ -406,12 +487,40 @@ def gen_hist_case(rng):
         steps.append(dict(op="merge"))
         if rng.random() < 0.4:
             steps.append(dict(op="merge"))
-    return dict(kind="e2e-hist", sensors=sensors, refs=refs, names=["grp_%s" % "xyz"[a] for a in range(nalg)], steps=steps)
+    return dict(kind="e2e-hist", sensors=sensors, refs=refs, names=["grp_%s" % "xyz"[a] for a in range(nalg)], steps=steps, **call_forms(rng, p_ro=0.0))
 
 
 def payload(sub, i):
     _, MS = arrays(sub)
-    return dict(Fn=np.array(sub["Fn"][i]), Xi=list(sub["Xi"][i]) if sub.get("xi_list") else np.array(sub["Xi"][i]), Phi=MS[i])
+    fx = sub.get("fx_dtype")
+    Fn = np.array(sub["Fn"][i], dtype=fx or "float64")
+    if not np.array_equal(Fn.astype(float), np.array(sub["Fn"][i], dtype=float)):
+        raise AssertionError("Fn is not exactly representable as %s" % fx)
+    Xi = np.array(sub["Xi"][i], dtype="float32" if fx == "float32" else "float64")
+    if not np.array_equal(Xi.astype(float), np.array(sub["Xi"][i], dtype=float)):
+        raise AssertionError("Xi is not exactly representable as float32")
+    pl = dict(Fn=Fn, Xi=Xi, Phi=np.array(MS[i], copy=True))
+    if sub.get("readonly"):
+        for a in pl.values():
+            a.setflags(write=False)
+    if sub.get("xi_list"):
+        pl["Xi"] = [float(x) for x in sub["Xi"][i]]
+    return pl
+
+
+def results_untouched(setups, algs):
+    """the setups' stored results are still, bit for bit, what was put there"""
+    for i, ss in enumerate(setups):
+        for a, alg in enumerate(ss.algorithms.values()):
+            want = payload(algs[a], i)
+            for f in ("Fn", "Xi", "Phi"):
+                got = getattr(alg.result, f)
+                if isinstance(want[f], list):
+                    if not isinstance(got, list) or got != want[f]:
+                        return False
+                elif not isinstance(got, np.ndarray) or got.dtype != want[f].dtype or not np.array_equal(got, want[f]):
+                    return False
+    return True
 
 
 def build_poser(case, algs, classes):
@@ -428,7 +537,7 @@ def build_poser(case, algs, classes):
         ss.add_algorithms(*objs)
         ss.run_all()
         setups.append(ss)
-    return MultiSetup_PoSER(ref_ind=[list(r) for r in case["refs"]], single_setups=setups, names=list(case["names"])), setups
+    return MultiSetup_PoSER(ref_ind=ref_arg(case["refs"], case.get("ref_form")), single_setups=setups, names=list(case["names"])), setups
 
 
 def change_results(setups, algs, how, StubResult):
@@ -448,8 +557,14 @@ def change_results(setups, algs, how, StubResult):
 
 
 def run_e2e(case, classes):
-    msp, _ = build_poser(case, case["algs"], classes)
-    return msp.merge_results()
+    msp, setups = build_poser(case, case["algs"], classes)
+    res = msp.merge_results()
+    return res, results_untouched(setups, case["algs"]) and same_refs(msp.ref_ind, case["refs"])
+
+
+def stat_tols(sub):
+    """(relative tolerance of the means, absolute tolerance of std/mean): float32 storage makes NumPy average in float32"""
+    return (1e-5, 1e-5) if sub.get("fx_dtype") == "float32" else (TOL, None)
 
 
 def judge_result(r, sub):
@@ -460,9 +575,11 @@ def judge_result(r, sub):
         bad.append(("Phi", "Phi is not the global shape of that algorithm in the first setup's scale"))
     for what, rows, mean_got, disp_got in (("Fn", sub["Fn"], r.Fn, r.Fn_cov), ("Xi", sub["Xi"], r.Xi, r.Xi_cov)):
         mean_want, disp_want = pop_stats(rows)
-        if not close(mean_got, mean_want):
+        mtol, dabs = stat_tols(sub)
+        if not close(mean_got, mean_want, tol=mtol):
             bad.append((what, "%s is not the arithmetic mean over the setups" % what))
-        if not close(disp_got, disp_want, floor=0.0):
+        if not (close(disp_got, disp_want, floor=0.0) if dabs is None else
+                (np.asarray(disp_got).shape == disp_want.shape and bool(np.all(np.abs(np.asarray(disp_got, float) - disp_want) <= dabs)))):
             bad.append((what + "_cov", "%s_cov is not the population standard deviation over the setups divided by the mean" % what))
     return bad
 
@@ -501,7 +618,7 @@ def gen_ssi_case(rng, alg):
         sel2 = sel
         while sel2 == sel:
             sel2 = sorted(rng.sample(range(n), rng.randint(1, n)))
-        return dict(kind="ssi", alg=alg, sel2=sel2, k=k, m=m, xi=[rng.uniform(0.008, 0.03) for _ in range(n)], sensors=sensors, refs=refs,
+        return dict(kind="ssi", alg=alg, sel2=sel2, **call_forms(rng, p_ro=0.5), k=k, m=m, xi=[rng.uniform(0.008, 0.03) for _ in range(n)], sensors=sensors, refs=refs,
                     amps=[gen_factor(rng) for _ in range(nset)], sel=sel, N=rng.choice([500, 640, 800]), br=-(-2 * n // nref) + rng.randint(1, 5),  # (br+1)*nref >= 2n is what SSI_fast needs
                     modal=[[[rng.uniform(0.5, 1.5) * rng.choice([-1, 1]), rng.uniform(0, 6.28)] for _ in range(n)] for _ in range(nset)])
     raise RuntimeError("no admissible chain system drawn")
@@ -548,7 +665,12 @@ def run_ssi(case):
 def poser_ssi(case, setups):
     from pyoma2.setup import MultiSetup_PoSER
 
-    return MultiSetup_PoSER(ref_ind=[list(r) for r in case["refs"]], single_setups=setups, names=["ssi"])
+    if case.get("readonly"):  # the identified results are presented read-only
+        for ss in setups:
+            for alg in ss.algorithms.values():
+                for f in ("Fn", "Xi", "Phi"):
+                    getattr(alg.result, f).setflags(write=False)
+    return MultiSetup_PoSER(ref_ind=ref_arg(case["refs"], case.get("ref_form")), single_setups=setups, names=["ssi"])
 
 
 # ----------------------------------------------------------------------------------------------------------------------
@@ -568,11 +690,13 @@ def judge_merge(case):
     ref_ids = [case["sensors"][0][p] for p in case["refs"][0]]
     iso = [k for k in range(nm) if isotropic(case["G"], ref_ids, k)]
     illc = [k for k in range(nm) if k not in iso and ill_conditioned(case["G"], ref_ids, k)]
+    given, kept = frozen(MS, case.get("readonly"))
+    rarg = ref_arg(case["refs"], case.get("ref_form"))
     try:
-        got = np.asarray(gen.merge_mode_shapes([M.copy() for M in MS], [list(r) for r in case["refs"]]))
+        got = np.asarray(gen.merge_mode_shapes(given, rarg))
     except Exception as e:  # the hypothesis of the property holds: no exception is acceptable
-        return None, ("C02:merge_mode_shapes:raises", "gen.merge_mode_shapes raises %s on setups that are re-scaled restrictions of one "
-                      "global shape" % type(e).__name__), iso, illc
+        return None, ("C02:merge_mode_shapes:raises", "gen.merge_mode_shapes raises %s (%s) on setups that are re-scaled restrictions of one "
+                      "global shape%s" % (type(e).__name__, str(e)[:70], form_text(case))), iso, illc
     want, _ = expected_merged(case)
     if got.shape != want.shape:
         return got, ("C02:merge_mode_shapes:shape", "gen.merge_mode_shapes: result has shape %s, property says (%d rows = references + all "
@@ -588,8 +712,22 @@ def judge_merge(case):
             r = r[np.isfinite(r)]
             detail = "merged/global takes the values %s, largest deviation %.3g of the scale" % (
                 [round(float(x), 6) for x in np.unique(np.round(r.real, 6))[:8]], float(np.max(np.abs(g - w)) / np.max(np.abs(w))))
-        return got, ("C02:merge_mode_shapes:global", GLOBAL_TXT + "; " + detail), iso, illc
+        return got, ("C02:merge_mode_shapes:global", GLOBAL_TXT + "; " + detail + form_text(case)), iso, illc
+    if not untouched(given, kept) or not same_refs(rarg, case["refs"]):
+        return got, ("C02:merge_mode_shapes:writes-input", "gen.merge_mode_shapes changes the arrays / reference lists it is given (the setups' "
+                     "stored shapes are no longer the re-scaled restrictions they were)"), iso, illc
     return got, None, iso, illc
+
+
+def form_text(case):
+    t = []
+    if case.get("readonly"):
+        t.append("input arrays read-only")
+    if case.get("ref_form"):
+        t.append("reference positions given as %s" % case["ref_form"])
+    if case.get("dtypes"):
+        t.append("storage dtypes %s" % ",".join(case["dtypes"]))
+    return (" [" + "; ".join(t) + "]") if t else ""
 
 
 def sub_case(case, setups, modes):
@@ -686,6 +824,8 @@ def run(ctx):
         ctx.hist("nref", len(case["refs"][0]))
         ctx.hist("modes", len(case["G"][0]))
         ctx.hist("dtype", case["dtype"] if not case.get("dtypes") else "mixed:" + case.get("plan", "?"))
+        ctx.hist("ref_form", case.get("ref_form", "int"))
+        ctx.hist("readonly", bool(case.get("readonly")))
         ctx.hist("roving_total", sum(len(s) - len(r) for s, r in zip(case["sensors"], case["refs"])))
         ctx.sample(case)
         if bad:
@@ -714,12 +854,16 @@ def run(ctx):
         order = expected_order(sensors, refs)
         byid = {sid: nm_ for s, row in zip(sensors, names) for sid, nm_ in zip(s, row)}
         want = ["REF%d" % (j + 1) for j in range(len(refs[0]))] + [byid[sid] for sid in order[len(refs[0]):]]
+        rarg = ref_arg(refs, case.get("ref_form"))
+        narg = [list(r) for r in names]
         try:
-            got = gen.flatten_sns_names([list(r) for r in names], ref_ind=[list(r) for r in refs])
+            got = gen.flatten_sns_names(narg, ref_ind=rarg)
         except Exception as e:
-            ctx.fail("oracle", "gen.flatten_sns_names raises %s on a list of lists of names with ref_ind" % type(e).__name__, case,
+            ctx.fail("oracle", "gen.flatten_sns_names raises %s on a list of lists of names with ref_ind%s" % (type(e).__name__, form_text(case)), case,
                      key="C02:flatten_sns_names:raises")
             return
+        if narg != [list(r) for r in names] or not same_refs(rarg, refs):
+            ctx.fail("oracle", "gen.flatten_sns_names changes the name lists / reference lists it is given", case, key="C02:flatten_sns_names:writes-input")
         if list(got) != want:
             ctx.fail("oracle", "gen.flatten_sns_names: names are not in the order of the merged rows (REF1..REFk, then each setup's roving "
                      "sensors in setup order)", dict(case, got=list(got), want=want), key="C02:flatten_sns_names:order")
@@ -727,7 +871,7 @@ def run(ctx):
         width = max(len(r) for r in names)
         df = pd.DataFrame([r + [np.nan] * (width - len(r)) for r in names])
         try:
-            got_df = gen.flatten_sns_names(df, ref_ind=[list(r) for r in refs])
+            got_df = gen.flatten_sns_names(df, ref_ind=ref_arg(refs, case.get("ref_form")))
             if list(got_df) != want:
                 ctx.fail("oracle", "gen.flatten_sns_names (table form): names are not in the order of the merged rows",
                          dict(case, got=list(got_df), want=want), key="C02:flatten_sns_names:order-table")
@@ -738,13 +882,14 @@ def run(ctx):
         meta.append(("flatten", case, list(got)))
 
     def flatten_case(sensors, refs, tag):
-        return dict(kind="flatten", names=[["%s%d" % (tag, sid) for sid in s] for s in sensors], refs=refs, sensors=sensors)
+        return dict(kind="flatten", names=[["%s%d" % (tag, sid) for sid in s] for s in sensors], refs=refs, sensors=sensors,
+                    **call_forms(rng, p_ro=0.0))
 
     # ------------------------------------------------------------------------------------------------ merge_results, stub algorithms
     def model_result(r, sub, tag, with_phi):
         for what, rows, mean_got, disp_got in (("Fn", sub["Fn"], r.Fn, r.Fn_cov), ("Xi", sub["Xi"], r.Xi, r.Xi_cov)):
             exprs.append(stats_expr(rows))
-            meta.append(("stats", dict(tag, what=what), (np.asarray(mean_got, float), np.asarray(disp_got, float))))
+            meta.append(("stats", dict(tag, what=what, lowp=sub.get("fx_dtype") == "float32"), (np.asarray(mean_got, float), np.asarray(disp_got, float))))
         if with_phi:
             _, MS = arrays(sub)
             add_merge("e2e-phi", tag, np.asarray(r.Phi), MS, sub["refs"])
@@ -754,13 +899,21 @@ def run(ctx):
         for sub in case["algs"]:
             ctx.hist("e2e_scale10", sub.get("scale10", 0))
             ctx.hist("e2e_dtypes", sub.get("plan", sub["dtype"]))
+            ctx.hist("e2e_fx_dtype", sub.get("fx_dtype", "float64"))
+            ctx.hist("e2e_readonly", bool(sub.get("readonly")))
         ctx.count(case, nontrivial=True)
+        ctx.hist("ref_form", case.get("ref_form", "int"))
         try:
-            res = run_e2e(case, classes)
+            res, same = run_e2e(case, classes)
         except Exception as e:
-            ctx.fail("oracle", "MultiSetup_PoSER(...).merge_results() raises %s on setups that are re-scaled restrictions of one global shape"
-                     % type(e).__name__, case, key="C02:merge_results:raises")
+            ro = [a for a, sub in enumerate(case["algs"]) if sub.get("readonly")]
+            ctx.fail("oracle", "MultiSetup_PoSER(...).merge_results() raises %s (%s) on setups that are re-scaled restrictions of one global shape%s%s"
+                     % (type(e).__name__, str(e)[:70], form_text(case), " [result arrays of algorithms %s read-only]" % ro if ro else ""), case,
+                     key="C02:merge_results:raises")
             return
+        if not same:
+            ctx.fail("oracle", "merge_results() changes the setups' stored results (Fn / Xi / Phi of an algorithm) or the reference lists", case,
+                     key="C02:merge_results:writes-input")
         if sorted(res.keys()) != sorted(case["names"]):
             ctx.fail("oracle", "merge_results: result keys %s are not the given names %s" % (sorted(res.keys()), case["names"]), case,
                      key="C02:merge_results:names")
@@ -793,6 +946,12 @@ def run(ctx):
                          key="C02:merge_results:history-raises")
                 return
             nmerge += 1
+            try:
+                same = results_untouched(setups, current)
+            except Exception:
+                same = False
+            if not same:
+                ctx.fail("oracle", "merge_results() (step %d) changes the setups' stored results" % n, dict(case, at_step=n), key="C02:merge_results:writes-input")
             for a, sub in enumerate(current):
                 r = res.get(case["names"][a])
                 tag = dict(case, at_step=n, alg=a)
@@ -952,6 +1111,11 @@ def run(ctx):
             elif kind == "stats":
                 mean_m, c2_m = parse_stats(s)
                 mean_got, disp_got = got
+                if case.get("lowp"):  # single-precision storage: NumPy averages in float32
+                    if not close(mean_got, mean_m, tol=1e-5) or not bool(np.all(np.abs(disp_got - np.sqrt(c2_m)) <= 1e-5)):
+                        ctx.fail("correspondence", "merge_results %s / %s_cov (float32 storage) differ from the model beyond single precision"
+                                 % (case["what"], case["what"]), case, key="C02:merge_results:corr-f32")
+                    continue
                 if not close(mean_got, mean_m):
                     ctx.fail("correspondence", "merge_results %s differs from model mean" % case["what"], case, key="C02:merge_results:corr-mean")
                 if not close(disp_got ** 2, c2_m, floor=0.0, tol=1e-8) and not close(disp_got, np.sqrt(c2_m), floor=0.0):
@@ -1016,7 +1180,7 @@ def run(ctx):
     # setups of different array dtypes (int64 / float64 / float32 / complex128), every setup still an exact re-scaled restriction
     for j in range(ctx.n(24, 200)):
         ctx.hist("stream", "mixed-dtype")
-        do_merge(gen_mixed_case(rng, ["int-first", "real-first", "float32", "int-later"][j % 4] if j < 8 else None))
+        do_merge(gen_mixed_case(rng, ["int-first", "real-first", "float32", "int-later", "all-int", "uint-first", "complex64"][j % 7] if j < 14 else None))
 
     # special global shapes inside the hypothesis: purely imaginary, real part (or imaginary part) zero on the references only,
     # a zero entry at the first / at all but one reference sensor
